@@ -285,6 +285,128 @@ def ob_cache_all():
     return Verdict(DISCHARGED, backend="AST path analysis over every class with cached methods", sub=total, detail=" || ".join(report)[:1500])
 
 
+def _all_classes():
+    import os
+    out = []
+    root = os.path.join(extract.REPO if hasattr(extract, "REPO") else "/repo", "EasyFEA")
+    for d, _, files in os.walk(root):
+        for f in sorted(files):
+            if not f.endswith(".py"):
+                continue
+            full = os.path.join(d, f)
+            rel = os.path.relpath(full, os.path.dirname(root))
+            try:
+                tree = ast.parse(open(full).read())
+            except SyntaxError:
+                continue
+            for c in tree.body:
+                if isinstance(c, ast.ClassDef):
+                    out.append((rel, c.name))
+    return sorted(set(out))
+
+
+def ob_cache_handmade():
+    """hand-written memos -- `if self.X is None: self.X = <expression>` -- anywhere in the package: X caches what the expression reads (private fields of self, transitively
+    through self-calls and properties); every non-constructor path that stores one of those fields also stores X again (resets or recomputes it), directly or through a method
+    that does so on all its paths"""
+    total, report, memos_found = 0, [], 0
+    for path, cls in _all_classes():
+        if cls in ("HyperElasticState", "_StrainPathState"):
+            continue
+        try:
+            meths = eff.methods_of(path, cls)
+        except Exception:
+            continue
+        by_name = {}
+        for name, which, fn, decs in meths:
+            by_name.setdefault(name, []).append((which, fn, decs))
+        owner = cls.lstrip("_")
+
+        def attr_key(a):
+            return f"_{owner}{a}" if a.startswith("__") and not a.endswith("__") else a
+        memos = {}      # mangled memo field -> set of names (fields / methods) read by the memoised expression
+        for name, lst in by_name.items():
+            for which, fn, decs in lst:
+                for node in ast.walk(fn.node):
+                    if isinstance(node, ast.If) and isinstance(node.test, ast.Compare) and len(node.test.ops) == 1 and isinstance(node.test.ops[0], ast.Is) \
+                            and isinstance(node.test.comparators[0], ast.Constant) and node.test.comparators[0].value is None \
+                            and isinstance(node.test.left, ast.Attribute) and isinstance(node.test.left.value, ast.Name) and node.test.left.value.id == "self":
+                        X = node.test.left.attr
+                        assigns = [a_ for b_ in node.body for a_ in ast.walk(b_) if isinstance(a_, ast.Assign) and any(isinstance(t, ast.Attribute) and isinstance(t.value, ast.Name)
+                                   and t.value.id == "self" and t.attr == X for t in a_.targets)]
+                        if not assigns:
+                            continue
+                        used = set()
+                        for a_ in assigns:
+                            for sub in ast.walk(a_.value):
+                                if isinstance(sub, ast.Attribute) and isinstance(sub.value, ast.Name) and sub.value.id == "self" and isinstance(sub.ctx, ast.Load):
+                                    used.add(sub.attr)
+                        memos.setdefault(attr_key(X), set()).update(used)
+        if not memos:
+            continue
+        reads, calls = {}, {}
+        for name, lst in by_name.items():
+            r, c = set(), set()
+            for which, fn, decs in lst:
+                if which == "setter":
+                    continue
+                for node in ast.walk(fn.node):
+                    if isinstance(node, ast.Attribute) and isinstance(node.value, ast.Name) and node.value.id == "self" and isinstance(node.ctx, ast.Load):
+                        a = node.attr
+                        if a.startswith("__") and not a.endswith("__"):
+                            r.add(f"_{owner}{a}")
+                            c.add(a)
+                        else:
+                            c.add(a)
+                            if a not in by_name:
+                                r.add(a)
+            reads[name], calls[name] = r, c
+        for X, used in memos.items():
+            memos_found += 1
+            F, seen, todo = set(), set(), []
+            for a in used:
+                if a.startswith("__") and not a.endswith("__") and a not in by_name:
+                    F.add(f"_{owner}{a}")
+                elif a in by_name:
+                    todo.append(a)
+                else:
+                    F.add(a)
+            while todo:
+                m = todo.pop()
+                if m in seen or m not in reads:
+                    continue
+                seen.add(m)
+                F |= reads[m]
+                todo += list(calls[m])
+            F.discard(X)
+            F = {f for f in F if f.startswith(f"_{owner}__")}          # the class's own private state (what another object holds is the concern of I_cache.foreign)
+            if not F:
+                continue
+            # methods that store X on every reachable path (fixpoint)
+            resetters = set()
+            changed = True
+            while changed:
+                changed = False
+                for name, lst in by_name.items():
+                    if name in resetters:
+                        continue
+                    for which, fn, decs in lst:
+                        ps = [p_ for p_ in eff.paths(fn) if _reachable(p_)]
+                        if ps and all(_store(p_, lambda e, X=X: e[1] == f"self.{X}") or _call(p_, lambda e: e[1].startswith("self.") and e[1][5:] in resetters) for p_ in ps):
+                            resetters.add(name)
+                            changed = True
+            mres = set(resetters) | {f"_{owner}{c}" for c in resetters if c.startswith("__")}
+            trig = lambda p_, F=F: _store(p_, lambda e: e[1].startswith("self.") and e[1][5:] in F, kinds=("store", "augstore", "itemstore"))
+            req = lambda p_, t, X=X, mres=mres: bool(_store(p_, lambda e: e[1] == f"self.{X}")) or _call(p_, lambda e: e[1].startswith("self.") and e[1][5:] in mres)
+            n, who = _check_rule(f"I_cache.handmade:{cls}.{X}", path, cls, trig, req, (f"stores a field read by the hand-written memo {X} of {cls}", f"storing {X} again"),
+                                 skip=("__init__", "_Set_partitioned_data", "__setstate__"))
+            total += n
+            report.append(f"{cls}.{X}: depends on {sorted(F)}, mutators {who}")
+    if memos_found == 0:
+        raise Unsupported("no hand-written memo found (vacuous)")
+    return Verdict(DISCHARGED, backend="AST path analysis over every class of the package", sub=max(total, memos_found), detail=" || ".join(report)[:1500])
+
+
 def _replay_cache_all(path, cls):
     """native witness for the time-scheme weights (the one cached dependency family with public setters): change dt / algorithm on the same simulation and compare
     the weights with those of a fresh simulation."""
@@ -1394,6 +1516,7 @@ def build(tier, seed):
                   clause="after the mesh is replaced K and F == those of a weak-form simulation constructed on the new mesh", timeout=300))
     obs.append(Ob("C14.history.beam.theory", ob_beam_theory_switch, (), "X", ("EasyFEA/Simulations/_beam.py::Beam.useTimoshenko",), bound="one beam",
                   clause="switching the beam theory of a simulation: K == that of a simulation constructed with that theory (or the switch is refused)", timeout=300))
+    obs.append(Ob("C14.I_cache.handmade", ob_cache_handmade, (), "E", ("EasyFEA/**::`if self.X is None: self.X = ...`",), clause="a field a hand-written memo depends on is never stored without storing the memo again (every class of the package)", timeout=600))
     obs.append(Ob("C14.history.hyperelastic.getter", ob_he_default_getter, (), "X", ("EasyFEA/Simulations/_simu.py::_Simu.Get_K_C_M_F",), bound="one dynamic hyperelastic step",
                   clause="after the update flag is raised the public getter assembles the system of the simulation's problem type"))
     for solver in ("auto", "newton"):
